@@ -34,7 +34,9 @@ META = {
                   "optimizer's own guards (Props/C02Guards.lean): shapesCompatible_sound, reshape_pair_guard_sound, "
                   "reshape_pair_across_unary, identityReshapeGuard_sound, inversePerm_guard_sound, "
                   "chainSideOk_fold_sound, chainSideOk_castLike_sound (what the guard accepts satisfies the semantic "
-                  "precondition of the rewrite, all ranks / tensors / symbol bindings). Each rewrite the real passes "
+                  "precondition of the rewrite, all ranks / tensors / symbol bindings); for the graph edits all rewrites "
+                  "are made of (Props/C02Edits.lean): frame, replaceUses_sound, remove_sound, bypass_sound, "
+                  "internal_change_sound (all SSA graphs, any operator semantics) with refutations for observed values. Each rewrite the real passes "
                   "perform on the generated graphs must be accepted by the proven validator; anything it cannot "
                   "justify is executed in ORT.",
     "level_note": "Trusted: Lean kernel + 3 axioms; harness canonicalisation (termify.py); annotation soundness "
@@ -43,11 +45,12 @@ META = {
                   "against ORT. Reshape facts (element count and row-major order are kept; commutes with unary "
                   "pointwise ops and casts), Not(const) and the scalar Swish identity are assumed ONNX facts (fields "
                   "of Laws); the cast and reduction fields are theorems. Guard models are tied to the live predicates "
-                  "and to the passes' fold/no-fold behaviour on minimal graphs (one-sided: code accepts => model accepts).",
+                  "and to the passes' fold/no-fold behaviour on minimal graphs (one-sided: code accepts => model accepts); the "
+                  "graph-edit model is tied to onnx_ir's replace_all_uses_with / graph.remove on random graphs incl. If captures.",
     "design_ref": "DESIGN.md §3 C02",
 }
 
-MODS = ["J2O.Props.C02", "J2O.Props.C02Guards"]
+MODS = ["J2O.Props.C02", "J2O.Props.C02Guards", "J2O.Props.C02Edits"]
 
 
 def _opt():
@@ -304,6 +307,9 @@ def run(chk: Check) -> None:
     # ---- guard kernels: the code's own predicates vs their Lean models (Props/C02Guards.lean) ----
     import c02_guards
     chk.info("guard_kernels", c02_guards.check(chk, rng))
+    # ---- graph edits: onnx_ir's replace_all_uses_with / graph.remove vs Model/GraphEdit.lean ----
+    import c02_edits
+    chk.info("graph_edits", c02_edits.check(chk, rng, 600 if thorough else 250))
 
     lines = [r for r in requests if r is not None]
     answers = iter(common.run_driver("C02", lines)) if lines else iter([])
